@@ -698,9 +698,10 @@ fn check_c07(case: &Case, index: usize) -> CaseOut {
 
 pub fn run_c07(ctx: &mut Ctx) {
     let quick = ctx.quick();
-    ctx.set("rule", json!("E4, bounded liveness: disjunctions (conde, binary Disj, nested conde, loop{conde}) of 2-3 branches drawn from finite goals, infinite producers and silent divergers, in five positions; for every branch b and j < 3, if b alone yields its j-th answer after s engine steps, the whole program must yield that answer within 64 * 2^(k*depth) * (s+1) steps (hook H2 makes exceeding the bound a deterministic outcome). distinct_nontrivial = cases containing a diverging or infinitely producing branch next to an answering one."));
+    ctx.set("rule", json!("E4, bounded liveness: disjunctions (conde, binary Disj, nested conde, loop{conde}) of 2-3 branches drawn from finite goals, infinite producers and silent divergers, in five positions; for every branch b and j < 3, if b alone yields its j-th answer after s engine steps, the whole program must yield that answer within 64 * 2^(k*depth) * (s+1) steps (hook H2 makes exceeding the bound a deterministic outcome). distinct_nontrivial = cases containing a diverging or infinitely producing branch next to an answering one. Long horizon (family c07-long): the library's own generators always() / loop{} / never() in disjunctions through the public query iterator on a thread with the default 2 MiB stack, 100 000 (quick) / 1 000 000 (thorough) answers each: every branch's value must appear with its fair share and the search must not stop yielding (budget, panic, process abort)."));
     let cases = c07_cases(quick);
     run_family(ctx, "c07-e4", &cases, &|c, i| check_c07(c, i));
+    crate::c07_long::run(ctx);
     ctx.require_nonzero("answers-despite-silent-diverger");
     ctx.require_nonzero("answers-despite-infinite-producer");
     ctx.assume("fairness is checked as bounded liveness: the bound is generous for any fair binary interleaving and finite for none that starves a branch");
